@@ -69,7 +69,9 @@ func init() {
 	st.open = map[*File]struct{}{}
 }
 
-func rearmLocked() { armed.Store(st.rec != nil || st.stopIdx > 0 || st.stopped) }
+func rearmLocked() {
+	armed.Store(st.rec != nil || st.stopIdx > 0 || st.stopped || faultFn.Load() != nil)
+}
 
 // SetRecorder installs r (nil: passthrough). It resets the operation index
 // to 0, clears a pending stop point and the stopped state. Synced-length
@@ -130,8 +132,9 @@ func OpIndex() int {
 	return st.index
 }
 
-// Reset = SetRecorder(nil) + ResetTracking().
+// Reset = SetFaultFunc(nil) + SetRecorder(nil) + ResetTracking().
 func Reset() {
+	SetFaultFunc(nil)
 	SetRecorder(nil)
 	ResetTracking()
 }
@@ -146,6 +149,10 @@ func mutate(kind, p1, p2 string, data []byte, fn func() error) error {
 	idx, ok := begin(kind, p1, p2, data)
 	if !ok {
 		return ErrStopped
+	}
+	if f := injected(idx, kind, p1, p2, data); f != nil {
+		finish(idx)
+		return faultError(kind, p1, p2, f.Err)
 	}
 	err := fn()
 	finish(idx)
